@@ -194,3 +194,99 @@ def _resolve_mask(sym, e):
             return e
         e = sym.rvalue(ds[0][2], ds[0][0], (ds[0][0], ds[0][1]))
     return e
+
+
+# ---------------------------------------------------------------------------------------------
+# lane bypass: an early return of the unmodified input vector in a per-lane primitive
+
+EXISTS, FORALL, NONE_ = "exists", "forall", "none"
+
+
+def _quantifier(cond, val):
+    """classify a branch condition over a SIMD mask: does it state something about ALL lanes,
+    about SOME lane, or about NO lane?"""
+    s = fmt(cond)
+    if cond[0] != "bin" or cond[1] not in ("Eq", "Ne"):
+        return None
+    eq = (cond[1] == "Eq") == bool(val)
+    a, b = cond[2], cond[3]
+    if b[0] != "const":
+        a, b = b, a
+    if b[0] != "const":
+        return None
+    k = b[1]
+    name = a[2] if a[0] == "callat" else (a[1] if a[0] == "call" else None)
+    if name is None:
+        return None
+    if re.match(r"^_mm(256)?_testz_si(128|256)$", name):
+        same_ops = len(a[3]) == 2 and a[3][0] == a[3][1]
+        if not same_ops:
+            return None
+        # testz(m, m) == 1  <=>  m == 0 (no lane set)
+        if (k == 1 and eq) or (k == 0 and not eq):
+            return NONE_
+        return EXISTS
+    if re.match(r"^_mm_test_all_ones$", name):
+        return FORALL if ((k == 1 and eq) or (k == 0 and not eq)) else EXISTS
+    if re.match(r"^_mm(256)?_movemask_(epi8|ps|pd)$", name):
+        if k == 0:
+            return NONE_ if eq else EXISTS
+        if k in (0xffff, 0xffffffff, -1, 0xf, 0xff, 0x3):
+            return FORALL if eq else EXISTS
+        return None
+    if re.match(r"^(v128_any_true|[iu]\d+x\d+_bitmask)$", name):
+        return EXISTS if ((k != 0) == eq or (k == 0 and not eq)) else NONE_
+    if re.match(r"^[iu]\d+x\d+_all_true$", name):
+        return FORALL if ((k != 0) == eq or (k == 0 and not eq)) else EXISTS
+    if re.match(r"^vmaxvq?_u\d+$", name):
+        return NONE_ if (k == 0 and eq) else (EXISTS if k == 0 else None)
+    if re.match(r"^vminvq?_u\d+$", name):
+        return None
+    return None
+
+
+def lane_bypass(rep, prog, rule):
+    rep.rule(rule, "a per-lane SIMD primitive of the alpha kernels (vector in, vector out) "
+             "returns its input unmodified only under a condition that speaks about ALL lanes "
+             "(test_all_ones, movemask == full, all_true); an early return guarded by an "
+             "'any lane' test (testz(m,m)==0, movemask != 0, any_true) leaves the other lanes "
+             "unprocessed")
+    n = 0
+    for f in sorted(prog.fns.values(), key=lambda x: x.id):
+        if not re.match(r"^alpha::\w+::(sse4|avx2|neon|wasm32)::", f.name) or f.kind == "closure":
+            continue
+        out = f.d.get("output", "")
+        if not re.search(r"__m\d+|v128|int\d+x\d+(x\d)?_t", out):
+            continue
+        if f.arg_count < 1 or f.local_ty(1) != out:
+            continue
+        n += 1
+        rep.touch(f)
+        sym = Sym(f)
+        p1 = ("param", 1, f.local_name(1))
+        bypass = []
+        for (bb, j, rv, whole) in f.defs().get(0, []):
+            e = sym.rvalue(rv, bb, (bb, j))
+            if e == p1:
+                bypass.append(bb)
+        key = f.name
+        if not bypass:
+            rep.ok(rule, key, f.loc, "no identity return path", nontrivial=False)
+            continue
+        for bb in bypass:
+            qs = [(_quantifier(c, v), c) for c, v in sym.facts_at(bb)]
+            qs = [q for q in qs if q[0]]
+            if any(q[0] == FORALL for q in qs):
+                rep.ok(rule, key, f.loc, "identity path under an all-lanes condition")
+            elif any(q[0] == EXISTS for q in qs):
+                c = [q[1] for q in qs if q[0] == EXISTS][0]
+                rep.bad(rule, key + "|any-lane", f.loc, "%s returns its input unchanged when "
+                        "`%s` holds, which is true as soon as ONE lane matches: the remaining "
+                        "lanes are not processed" % (f.name, fmt(c)[:120]))
+            elif not sym.facts_at(bb):
+                rep.bad(rule, key + "|identity", f.loc, "%s returns its input unchanged "
+                        "unconditionally" % f.name)
+            else:
+                rep.unk(rule, key, f.loc, "identity return under a condition that is not "
+                        "classified: %s" % [fmt(c)[:80] for c, v in sym.facts_at(bb)][:2])
+    rep.floor(rule, "vector-to-vector alpha primitives", n, 8)
